@@ -25,11 +25,13 @@ MUTANTS = {
         {"id": "second-writer", "file": R, "old": "        self.file_handle = Some(self.filestore.open_tempfile()?);", "new": "        self.file_handle = Some(self.filestore.open(\"staging\", File::options().create(true).write(true))?);", "rule": "C01-W"},
     ],
     "C04": [
+        {'id': 'new-own-error', 'file': 'cfdp-daemon/src/transaction/recv.rs', 'old': '    fn send_naks(&mut self, permit: Permit<(VariableID, PDU)>) -> TransactionResult<()> {\n', 'new': '    fn send_naks(&mut self, permit: Permit<(VariableID, PDU)>) -> TransactionResult<()> {\n        if self.naks.is_empty() {\n            return Err(TransactionError::MissingNak);\n        }\n', 'rule': 'C04-E'},
         {"id": "finalize-in-any-phase", "file": R, "old": "        if self.recv_state == RecvState::ReceiveData\n            && self.metadata.is_some()\n            && self.eof_received()", "new": "        if self.metadata.is_some()\n            && self.eof_received()", "rule": "C04-F"},
         {"id": "stay-in-phase", "file": R, "old": "            self.finalize_receive()?;\n            self.recv_state = RecvState::Finished;\n            self.prepare_finished(None);", "new": "            self.finalize_receive()?;\n            self.prepare_finished(None);", "rule": "C04-P"},
         {"id": "sender-invents-complete", "file": S, "old": "                            self.delivery_code = finished.delivery_code;\n                            self.file_status = finished.file_status;", "new": "                            self.delivery_code = DeliveryCode::Complete;\n                            self.file_status = finished.file_status;", "rule": "C04-S"},
     ],
     "C05": [
+        {'id': 'eof-fault-location-rule', 'file': 'cfdp-core/src/pdu/ops.rs', 'old': '            Condition::NoError => None,\n            _ => {\n                let type_code = {', 'new': '            Condition::NoError | Condition::UnsupportedChecksumType => None,\n            _ => {\n                let type_code = {', 'rule': 'C05-L8'},
         {"id": "decoder-mask-narrow", "file": OPS, "old": "let possible_condition = (u8_buff[0] & 0xF0) >> 4;\n            Condition::from_u8(possible_condition)\n                .ok_or(PDUError::InvalidCondition(possible_condition))?\n        };\n\n        let delivery_code", "new": "let possible_condition = (u8_buff[0] & 0x70) >> 4;\n            Condition::from_u8(possible_condition)\n                .ok_or(PDUError::InvalidCondition(possible_condition))?\n        };\n\n        let delivery_code", "rule": "C05-L1"},
         {"id": "encoder-shift", "file": OPS, "old": "let first_byte = ((self.directive as u8) << 4) | (self.directive_subtype_code as u8);", "new": "let first_byte = ((self.directive as u8) << 3) | (self.directive_subtype_code as u8);", "rule": "C05-L1"},
         {"id": "tag-crosswired", "file": OPS, "old": "            Self::FlowLabel(_) => MetadataTLVFieldCode::FlowLabel,", "new": "            Self::FlowLabel(_) => MetadataTLVFieldCode::EntityID,", "rule": "C05-L4"},
@@ -49,7 +51,8 @@ MUTANTS = {
         {"id": "wrong-direction", "file": R, "old": "            let header = self.get_header(\n                Direction::ToSender,\n                PDUType::FileDirective,\n                payload_len,\n                // TODO add segmentation Control ability", "new": "            let header = self.get_header(\n                Direction::ToReceiver,\n                PDUType::FileDirective,\n                payload_len,\n                // TODO add segmentation Control ability", "rule": "C07-S1"},
     ],
     "C08": [
-        {"id": "scope-from-wrong-end", "file": R, "old": "            .first()\n            .map(|sr| sr.start_offset)", "new": "            .first()\n            .map(|sr| sr.end_offset)", "rule": "C08-N2"},
+        {'id': 'scope-from-first', 'file': 'cfdp-daemon/src/transaction/recv.rs', 'old': '            .map(|sr| sr.start_offset)\n            .min()', 'new': '            .map(|sr| sr.start_offset)\n            .next()', 'rule': 'C08-N2'},
+        {"id": "scope-from-wrong-end", "file": R, "old": "            .map(|sr| sr.start_offset)\n            .min()", "new": "            .map(|sr| sr.end_offset)\n            .min()", "rule": "C08-N2"},
         {"id": "unbounded-requests", "file": R, "old": "        let segment_requests: Vec<SegmentRequestForm> = self.naks.drain(..n).collect();", "new": "        let _ = n;\n        let segment_requests: Vec<SegmentRequestForm> = self.naks.drain(..).collect();", "rule": "C08-N2"},
         {"id": "raw-offsets", "file": R, "old": "                                } else if offset > prev_end {", "new": "                                } else if offset != prev_end {", "rule": "C08-N1"},
         {"id": "marker-without-test", "file": R, "old": "        if self.metadata.is_none() {\n            naks.push_back((0_u64, 0_u64).into());\n        }", "new": "        naks.push_back((0_u64, 0_u64).into());", "rule": "C08-N1"},
@@ -76,6 +79,7 @@ MUTANTS = {
         {"id": "pass-through", "file": FS, "old": "        let relative = path.strip_prefix(&self.root_path).unwrap_or(path);\n        self.root_path.join(normalize_path(relative))", "new": "        if path.starts_with(&self.root_path) {\n            return path.to_path_buf();\n        }\n        self.root_path.join(normalize_path(path))", "rule": "C12-R1"},
     ],
     "C13": [
+        {'id': 'rename-any-object', 'file': 'cfdp-core/src/filestore.rs', 'old': '            FileStoreAction::RenameFile => match path.is_file() {', 'new': '            FileStoreAction::RenameFile => match path.exists() {', 'rule': 'C13-Q1'},
         {"id": "success-without-performing", "file": FS, "old": "                false => FileStoreStatus::DenyFile(DenyStatus::NotAllowed),", "new": "                false => FileStoreStatus::DenyFile(DenyStatus::Successful),", "rule": "C13-Q1"},
         {"id": "crosswired-not-performed", "file": PFS, "old": "            FileStoreAction::DenyFile => Self::DenyFile(DenyStatus::NotPerformed),", "new": "            FileStoreAction::DenyFile => Self::DenyDirectory(DenyStatus::NotPerformed),", "rule": "C13-Q1"},
         {"id": "fail-rest-reset", "file": R, "old": "                        true => FileStoreResponse::not_performed(request),", "new": "                        true => {\n                            fail_rest = false;\n                            FileStoreResponse::not_performed(request)\n                        }", "rule": "C13-Q2"},
@@ -85,11 +89,13 @@ MUTANTS = {
         {"id": "responses-taken", "file": R, "old": "                filestore_response: self.filestore_response.clone(),\n                fault_location,", "new": "                filestore_response: std::mem::take(&mut self.filestore_response),\n                fault_location,", "rule": "C13-Q3"},
     ],
     "C14": [
+        {'id': 'full-buffer-aligned', 'file': 'cfdp-core/src/filestore.rs', 'old': '                    while position != 0 {', 'new': '                    while position != 0 && buffer.len() < 8192 {', 'rule': 'C14-A'},
         {"id": "position-not-carried", "file": FS, "old": "                let mut position: u32 = 0;\n                'outer: loop {", "new": "                'outer: loop {\n                    let mut position: u32 = 0;", "rule": "C14-S"},
         {"id": "null-not-zero", "file": FS, "old": "            ChecksumType::Null => Ok(0_u32),", "new": "            ChecksumType::Null => Ok(1_u32),", "rule": "C14-N"},
         {"id": "consume-less", "file": FS, "old": "                    reader.consume(len);", "new": "                    reader.consume(len - (len & 3));", "rule": "C14-C"},
     ],
     "C15": [
+        {'id': 'accept-complement', 'file': 'cfdp-core/src/pdu.rs', 'old': '                match crc == crc16 {', 'new': '                match crc == crc16 || crc == !crc16 {', 'rule': 'C15-M'},
         {"id": "crc-bypass", "file": PDU, "old": "                match crc == crc16 {", "new": "                match crc == crc16 || crc16 == 0 {", "rule": "C15-M"},
         {"id": "crc-of-modified-copy", "file": PDU, "old": "let input_pdu = received_pdu.clone();", "new": "let mut input_pdu = received_pdu.clone(); input_pdu.header.crc_flag = CRCFlag::NotPresent;", "rule": "C15-M"},
         {"id": "width-disagree", "file": PDU, "old": "                    temp.truncate(temp.len() - 2);", "new": "                    temp.truncate(temp.len() - 1);", "rule": "C15-W"},
@@ -98,6 +104,8 @@ MUTANTS = {
         {"id": "whole-buffer", "file": TR, "old": "&self.buffer[..n]", "new": "&self.buffer[..]", "rule": "C16-D"},
     ],
     "C17": [
+        {'id': 'cancel-says-carry-on', 'file': 'cfdp-daemon/src/transaction/recv.rs', 'old': '            FaultHandlerAction::Cancel => {\n                self._cancel();\n                Ok(false)', 'new': '            FaultHandlerAction::Cancel => {\n                self._cancel();\n                Ok(true)', 'rule': 'C17-H9'},
+        {'id': 'nak-keeps-count', 'file': 'cfdp-daemon/src/transaction/send.rs', 'old': '        if self.send_state == SendState::SendEof {\n            // a PDU from the peer is progress: clear the expiration count', 'new': '        if self.send_state == SendState::SendEof && !matches!(pdu.payload, PDUPayload::Directive(Operations::Nak(_))) {\n            // a PDU from the peer is progress: clear the expiration count', 'rule': 'C17-H7'},
         {"id": "restart-on-reception", "file": S, "old": "            // a PDU from the peer is progress: clear the expiration count\n            self.timer.reset_inactivity();", "new": "            self.timer.restart_inactivity();", "rule": "C17-H7"},
         {"id": "reset-keeps-count", "file": T, "old": "        self.occurred = false;\n        self.count = 0;", "new": "        self.occurred = false;", "rule": "C17-T"},
         {"id": "fault-under-other-timer", "file": S, "old": "                    if self.timer.ack.limit_reached() {\n                        self.handle_fault(Condition::PositiveLimitReached)?", "new": "                    if self.timer.inactivity.limit_reached() {\n                        self.handle_fault(Condition::PositiveLimitReached)?", "rule": "C17-H4"},
@@ -107,9 +115,11 @@ MUTANTS = {
     ],
     "C18": [
         {"id": "resume-queues-naks-any-mode", "file": R, "old": "                if self.config.transmission_mode == TransmissionMode::Acknowledged\n                    && (matches!(self.nak_procedure, NakProcedure::Immediate(_))\n                        || self.eof_received())", "new": "                if matches!(self.nak_procedure, NakProcedure::Immediate(_))\n                        || self.eof_received()", "rule": "C18-U1"},
-        {"id": "unack-acks-eof", "file": R, "old": "                                self.condition = eof.condition;\n                                self.checksum = Some(eof.checksum);\n\n                                self.send_indication(Indication::EoFRecv(self.id()));\n\n                                if self.condition == Condition::NoError {\n                                    self.check_file_size(eof.file_size)?;\n                                    self.file_size = Some(eof.file_size);\n                                    // a file size fault", "new": "                                self.condition = eof.condition;\n                                self.prepare_ack_eof();\n                                self.checksum = Some(eof.checksum);\n\n                                self.send_indication(Indication::EoFRecv(self.id()));\n\n                                if self.condition == Condition::NoError {\n                                    self.check_file_size(eof.file_size)?;\n                                    self.file_size = Some(eof.file_size);\n                                    // a file size fault", "rule": "C18-U1"},
+        {"id": "unack-acks-eof", "file": R, "old": "                                self.condition = eof.condition;\n                                self.checksum = Some(eof.checksum);\n\n                                self.send_indication(Indication::EoFRecv(self.id()));\n\n                                if self.condition == Condition::NoError {\n                                    let carry_on = self.check_file_size(eof.file_size)?;\n                                    self.file_size = Some(eof.file_size);\n                                    // a file size fault", "new": "                                self.condition = eof.condition;\n                                self.prepare_ack_eof();\n                                self.checksum = Some(eof.checksum);\n\n                                self.send_indication(Indication::EoFRecv(self.id()));\n\n                                if self.condition == Condition::NoError {\n                                    let carry_on = self.check_file_size(eof.file_size)?;\n                                    self.file_size = Some(eof.file_size);\n                                    // a file size fault", "rule": "C18-U1"},
     ],
     "C19": [
+        {'id': 'finish-only-when-active', 'file': 'cfdp-daemon/src/transaction/recv.rs', 'old': '        if self.recv_state == RecvState::ReceiveData\n            && self.metadata.is_some()\n            && self.eof_received()', 'new': '        if self.recv_state == RecvState::ReceiveData\n            && self.state == TransactionState::Active\n            && self.metadata.is_some()\n            && self.eof_received()', 'rule': 'C19-R'},
+        {'id': 'resume-keeps-ack-paused', 'file': 'cfdp-daemon/src/transaction/send.rs', 'old': '            SendState::SendEof | SendState::Cancelled => {\n                self.timer.restart_ack();\n                self.timer.restart_inactivity();', 'new': '            SendState::SendEof | SendState::Cancelled => {\n                self.timer.restart_inactivity();', 'rule': 'C19-D'},
         {"id": "resume-bare-start", "file": R, "old": "            RecvState::Finished | RecvState::Cancelled => self.timer.reset_ack(),\n        }\n        self.state = TransactionState::Active;", "new": "            RecvState::Finished | RecvState::Cancelled => self.timer.ack.start(),\n        }\n        self.state = TransactionState::Active;", "rule": "C19-C"},
         {"id": "gate-ignores-suspension", "file": S, "old": "        // nothing is transmitted while the transaction is suspended\n        if self.state == TransactionState::Suspended {\n            return false;\n        }\n        self.prompt.is_some()", "new": "        self.prompt.is_some()", "rule": "C19-A"},
     ],
